@@ -1,5 +1,6 @@
 import KoalaVerif.Model.Surgery
 import KoalaVerif.Lemmas.Walk
+import KoalaVerif.Lemmas.AngOrder
 import KoalaVerif.Generated.Kernels
 import Mathlib.Data.List.Basic
 import Mathlib.Data.List.Nodup
@@ -652,158 +653,8 @@ theorem permute_allWalks (hL : L.noSelfLoop = true) :
 end Relabel
 
 section Thinned
-open Lat
+open Lat AngOrder
 /-! ### recomputing the rotation system after deleting edges = thinning out the old one -/
-
-theorem quad_spec (v : Int × Int) (hv : v ≠ (0, 0)) :
-    (quad v = 0 ∧ 0 < v.2 ∧ v.1 ≤ 0) ∨ (quad v = 1 ∧ v.2 ≤ 0 ∧ v.1 < 0) ∨ (quad v = 2 ∧ v.2 < 0 ∧ 0 ≤ v.1) ∨ (quad v = 3 ∧ 0 ≤ v.2 ∧ 0 < v.1) := by
-  obtain ⟨x, y⟩ := v
-  have hxy : x ≠ 0 ∨ y ≠ 0 := by
-    by_contra h
-    simp only [not_or, not_not] at h
-    exact hv (by rw [h.1, h.2])
-  unfold quad
-  simp only
-  by_cases h0 : y > 0 ∧ -x ≥ 0
-  · left; rw [if_pos h0]; exact ⟨rfl, h0.1, by omega⟩
-  · rw [if_neg h0]
-    by_cases h1 : y ≤ 0 ∧ -x > 0
-    · right; left; rw [if_pos h1]; exact ⟨rfl, h1.1, by omega⟩
-    · rw [if_neg h1]
-      by_cases h2 : y < 0 ∧ -x ≤ 0
-      · right; right; left; rw [if_pos h2]; exact ⟨rfl, h2.1, by omega⟩
-      · rw [if_neg h2]
-        by_cases h3 : y ≥ 0 ∧ -x < 0
-        · right; right; right; rw [if_pos h3]; exact ⟨rfl, h3.1, by omega⟩
-        · exfalso; omega
-
-theorem quad0_pos (v : Int × Int) (hv : v ≠ (0, 0)) (h : quad v = 0) : 0 < v.2 := by
-  rcases quad_spec v hv with ⟨q, s⟩ | ⟨q, s⟩ | ⟨q, s⟩ | ⟨q, s⟩ <;> first | exact s.1 | omega
-theorem quad1_neg (v : Int × Int) (hv : v ≠ (0, 0)) (h : quad v = 1) : v.1 < 0 := by
-  rcases quad_spec v hv with ⟨q, s⟩ | ⟨q, s⟩ | ⟨q, s⟩ | ⟨q, s⟩ <;> first | exact s.2 | omega
-theorem quad2_neg (v : Int × Int) (hv : v ≠ (0, 0)) (h : quad v = 2) : v.2 < 0 := by
-  rcases quad_spec v hv with ⟨q, s⟩ | ⟨q, s⟩ | ⟨q, s⟩ | ⟨q, s⟩ <;> first | exact s.1 | omega
-theorem quad3_pos (v : Int × Int) (hv : v ≠ (0, 0)) (h : quad v = 3) : 0 < v.1 := by
-  rcases quad_spec v hv with ⟨q, s⟩ | ⟨q, s⟩ | ⟨q, s⟩ | ⟨q, s⟩ <;> first | exact s.2 | omega
-
-theorem angLt_eq (v w : Int × Int) :
-    angLt v w = if quad v ≠ quad w then decide (quad v < quad w) else decide (v.1 * w.2 - v.2 * w.1 > 0) := by
-  unfold angLt
-  simp only [bne_iff_ne, ne_eq, ite_not]
-  by_cases h : quad v = quad w
-  · simp only [h, if_true, not_true_eq_false, if_false]
-    congr 1
-    apply propext
-    constructor <;> intro hh <;> nlinarith
-  · simp [h]
-
-/-- the angular order is asymmetric … -/
-theorem angLt_asymm (v w : Int × Int) (h : angLt v w = true) : angLt w v = false := by
-  rw [angLt_eq] at h ⊢
-  by_cases hq : quad v = quad w
-  · simp only [hq, ne_eq, not_true_eq_false, if_false, decide_eq_true_eq] at h
-    simp only [hq, ne_eq, not_true_eq_false, if_false, decide_eq_false_iff_not]
-    intro h2; nlinarith
-  · have hq' : quad w ≠ quad v := fun e => hq e.symm
-    simp only [ne_eq, hq, not_false_eq_true, if_true, decide_eq_true_eq] at h
-    simp only [ne_eq, hq', not_false_eq_true, if_true, decide_eq_false_iff_not]
-    omega
-
-/-- … and negatively transitive on non-zero vectors (a strict weak order: it compares the angle in `[0, 2π)`) -/
-theorem angLt_negTrans (x y z : Int × Int) (hx : x ≠ (0, 0)) (hy : y ≠ (0, 0)) (hz : z ≠ (0, 0)) (h : angLt x z = true) :
-    angLt x y = true ∨ angLt y z = true := by
-  rw [angLt_eq] at h
-  rw [angLt_eq, angLt_eq]
-  by_cases hxz : quad x = quad z
-  · simp only [hxz, ne_eq, not_true_eq_false, if_false, decide_eq_true_eq] at h
-    by_cases hyz : quad y = quad z
-    · -- all three in one quadrant: the 2D identity cross(x,z)·y = cross(x,y)·z + cross(y,z)·x on a strictly signed coordinate
-      simp only [hxz, hyz, ne_eq, not_true_eq_false, if_false, decide_eq_true_eq]
-      by_contra hcon
-      simp only [not_or, not_lt] at hcon
-      obtain ⟨c1, c2⟩ := hcon
-      have id1 : (x.1 * z.2 - x.2 * z.1) * y.1 = (x.1 * y.2 - x.2 * y.1) * z.1 + (y.1 * z.2 - y.2 * z.1) * x.1 := by ring
-      have id2 : (x.1 * z.2 - x.2 * z.1) * y.2 = (x.1 * y.2 - x.2 * y.1) * z.2 + (y.1 * z.2 - y.2 * z.1) * x.2 := by ring
-      have hxq : quad x = quad y := hxz.trans hyz.symm
-      rcases quad_spec x hx with ⟨qx, sx⟩ | ⟨qx, sx⟩ | ⟨qx, sx⟩ | ⟨qx, sx⟩
-      · have sy := quad0_pos y hy (by omega)
-        have sz := quad0_pos z hz (by omega)
-        nlinarith [mul_nonneg (sub_nonneg.mpr c1) (le_of_lt sz), mul_nonneg (sub_nonneg.mpr c2) (le_of_lt sx.1), mul_pos h sy]
-      · have sy := quad1_neg y hy (by omega)
-        have sz := quad1_neg z hz (by omega)
-        nlinarith [mul_nonneg (sub_nonneg.mpr c1) (le_of_lt (neg_pos.mpr sz)), mul_nonneg (sub_nonneg.mpr c2) (le_of_lt (neg_pos.mpr sx.2)), mul_pos h (neg_pos.mpr sy)]
-      · have sy := quad2_neg y hy (by omega)
-        have sz := quad2_neg z hz (by omega)
-        nlinarith [mul_nonneg (sub_nonneg.mpr c1) (le_of_lt (neg_pos.mpr sz)), mul_nonneg (sub_nonneg.mpr c2) (le_of_lt (neg_pos.mpr sx.1)), mul_pos h (neg_pos.mpr sy)]
-      · have sy := quad3_pos y hy (by omega)
-        have sz := quad3_pos z hz (by omega)
-        nlinarith [mul_nonneg (sub_nonneg.mpr c1) (le_of_lt sz), mul_nonneg (sub_nonneg.mpr c2) (le_of_lt sx.2), mul_pos h sy]
-    · have hxy : quad x ≠ quad y := fun e => hyz (e.symm.trans hxz)
-      simp only [ne_eq, hxy, hyz, not_false_eq_true, if_true, decide_eq_true_eq]
-      rw [hxz]; omega
-  · simp only [ne_eq, hxz, not_false_eq_true, if_true, decide_eq_true_eq] at h
-    by_cases hxy : quad x = quad y
-    · right
-      have hyz : quad y ≠ quad z := fun e => hxz (hxy.trans e)
-      simp only [ne_eq, hyz, not_false_eq_true, if_true, decide_eq_true_eq]
-      omega
-    · by_cases hlt : quad x < quad y
-      · left; simp only [ne_eq, hxy, not_false_eq_true, if_true, decide_eq_true_eq]; exact hlt
-      · right
-        have hyz : quad y ≠ quad z := by omega
-        simp only [ne_eq, hyz, not_false_eq_true, if_true, decide_eq_true_eq]
-        omega
-
-/-- the list is in descending angular order (what `argsort(-angle)` returns) -/
-def DescSorted (key : Nat → Int × Int) (l : List Nat) : Prop := l.Pairwise fun a b => angLt (key a) (key b) = false
-
-theorem insertDesc_filter_neg (key : Nat → Int × Int) (p : Nat → Bool) (e : Nat) (l : List Nat) (hp : p e = false) :
-    (insertDesc key e l).filter p = l.filter p := by
-  induction l with
-  | nil => simp [insertDesc, hp]
-  | cons x xs ih =>
-    unfold insertDesc
-    split
-    · simp [List.filter_cons, hp]
-    · simp only [List.filter_cons, ih]
-
-theorem insertDesc_mem (key : Nat → Int × Int) (e : Nat) (l : List Nat) (y : Nat) : y ∈ insertDesc key e l ↔ y = e ∨ y ∈ l := by
-  induction l with
-  | nil => simp [insertDesc]
-  | cons x xs ih =>
-    unfold insertDesc
-    split
-    · simp
-    · simp only [List.mem_cons, ih]; tauto
-
-/-- inserting into a sorted list keeps it sorted -/
-theorem insertDesc_sorted (key : Nat → Int × Int) (e : Nat) (l : List Nat) (hnz : ∀ x, x = e ∨ x ∈ l → key x ≠ (0, 0))
-    (hs : DescSorted key l) : DescSorted key (insertDesc key e l) := by
-  induction l with
-  | nil => simp [insertDesc, DescSorted]
-  | cons x xs ih =>
-    unfold insertDesc
-    have hs' := List.pairwise_cons.mp hs
-    split
-    · rename_i hlt
-      -- e goes first: every later element is below x or tied with it, hence not above e
-      refine List.pairwise_cons.mpr ⟨?_, hs⟩
-      intro y hy
-      rcases List.mem_cons.mp hy with rfl | hy
-      · exact angLt_asymm _ _ hlt
-      · by_contra hcon
-        have hcon : angLt (key e) (key y) = true := by simpa using hcon
-        -- x < e < y  ⇒  x < y, contradicting sortedness
-        rcases angLt_negTrans (key x) (key y) (key e) (hnz x (Or.inr (by simp))) (hnz y (Or.inr (List.mem_cons_of_mem _ hy)))
-          (hnz e (Or.inl rfl)) hlt with h1 | h1
-        · rw [hs'.1 y hy] at h1; cases h1
-        · rw [angLt_asymm _ _ hcon] at h1; cases h1
-    · rename_i hnlt
-      refine List.pairwise_cons.mpr ⟨?_, ih (fun y hy => hnz y (by rcases hy with h | h; exact Or.inl h; exact Or.inr (List.mem_cons_of_mem _ h))) hs'.2⟩
-      intro y hy
-      rcases (insertDesc_mem key e xs y).mp hy with rfl | hy
-      · simpa using hnlt
-      · exact hs'.1 y hy
 
 /-- **thinning out commutes with insertion**: inserting a kept element into the sorted list and then dropping the removed
     ones gives the same list as dropping them first -/
